@@ -12,9 +12,9 @@ Min == [n \in NT |-> CASE n = "anysuf" -> 1 [] n = "argl" -> 0 [] n = "args" -> 
 RECURSIVE MinSeq(_)
 MinSeq(st) == IF st = <<>> THEN 0 ELSE
    (IF Head(st) \in Markers THEN 0 ELSE IF IsTerm(Head(st)) THEN 1 ELSE Min[Head(st)]) + MinSeq(Tail(st))
-VARIABLES stack, toks, deriv, depth, scope, nsc
-vars == <<stack, toks, deriv, depth, scope, nsc>>
-Init == stack = <<"chunk">> /\ toks = <<>> /\ deriv = <<>> /\ depth = 0 /\ scope = <<>> /\ nsc = 0
+VARIABLES stack, toks, deriv, depth, scope, nsc, nt
+vars == <<stack, toks, deriv, depth, scope, nsc, nt>>
+Init == stack = <<"chunk">> /\ toks = <<>> /\ deriv = <<>> /\ depth = 0 /\ scope = <<>> /\ nsc = 0 /\ nt = 0
 \* inside a line scope, multi-line-capable constructs are still allowed syntactically, but the
 \* generator keeps short-if bodies simple
 ExprOnly == {"Exp", "UnNone", "TailNone", "TPrefix", "PName", "SufNone"}
@@ -24,6 +24,9 @@ Allowed(p) ==
     [] Mode = "shortif" -> /\ (P[p].l \in {"exp", "unops", "exptail", "term", "primary", "sufs"} => p \in ExprOnly)
                            /\ (p \in StatProds => p \in {"ShortIf", "Assign", "Goto"})
                            /\ p \notin {"VLn", "VarSuf", "ELn", "StRet", "St1Ret"}
+    [] Mode = "blocks" -> /\ (P[p].l \in {"exp", "unops", "exptail", "term", "primary", "sufs"} => p \in ExprOnly)
+                          /\ (p \in StatProds => p \in {"If", "Do", "While", "Repeat", "ForIn", "ForStep", "Goto"})
+                          /\ p \notin {"NLn", "ELn", "StRet", "Step"}
     [] Mode = "expr" -> (p \in StatProds => p = "Assign") /\ p \notin {"TFunc", "StRet", "StBreak", "VLn", "VarSuf"}
                         /\ (p = "StStat" => deriv = <<"Chunk">>)
     [] OTHER -> TRUE
@@ -31,10 +34,11 @@ Expand(p) == /\ stack # <<>> /\ Head(stack) = P[p].l /\ Allowed(p)
              /\ stack' = P[p].r \o Tail(stack)
              /\ deriv' = Append(deriv, p)
              /\ Len(deriv') <= MaxDeriv
-             /\ Len(toks) + MinSeq(stack') <= MaxToks
-             /\ UNCHANGED <<toks, depth, scope, nsc>>
+             /\ nt + MinSeq(stack') <= MaxToks
+             /\ UNCHANGED <<toks, depth, scope, nsc, nt>>
 Shift == /\ stack # <<>> /\ IsTerm(Head(stack))
          /\ toks' = Append(toks, [t |-> Head(stack), d |-> depth, s |-> scope])
+         /\ nt' = nt + 1
          /\ stack' = Tail(stack) /\ UNCHANGED <<deriv, depth, scope, nsc>>
 Mark == /\ stack # <<>> /\ Head(stack) \in Markers
         /\ depth' = CASE Head(stack) = "+" -> depth + 1 [] Head(stack) = "-" -> depth - 1 [] OTHER -> depth
@@ -45,7 +49,7 @@ Mark == /\ stack # <<>> /\ Head(stack) \in Markers
                                           ELSE IF toks[Len(toks)].t # "SB" THEN Append(toks, [t |-> "SB", d |-> depth, s |-> scope])
                                           ELSE [toks EXCEPT ![Len(toks)] = [t |-> "SB", d |-> depth, s |-> scope]])
         /\ (Head(stack) # "SB" => toks' = toks)
-        /\ stack' = Tail(stack) /\ UNCHANGED <<deriv>>
+        /\ stack' = Tail(stack) /\ UNCHANGED <<deriv, nt>>
 Next == Shift \/ Mark \/ \E p \in PN : Expand(p)
 Spec == Init /\ [][Next]_vars
 Done == stack = <<>>
